@@ -81,6 +81,7 @@ Theorem group_at_spec names ins a r :
     sh (vals r) = map alen (firstn ins (axes a) ++ [g] ++ skipn (ins + k) (axes a)).
 Proof.
   unfold group_at. cbv zeta. destruct (multi_axis _) as [g|] eqn:Eg; simpl; [|discriminate].
+  destruct (mem_str _ _); [discriminate|].
   intros [= <-]. exists g. simpl. auto.
 Qed.
 
@@ -124,13 +125,25 @@ Proof. revert n; induction l as [|y l IH]; intros [|n]; simpl; try tauto. intros
 Lemma in_skipn_ {A} n (l : list A) x : In x (skipn n l) -> In x l.
 Proof. revert n; induction l as [|y l IH]; intros [|n]; simpl; try tauto. intros H. right. eapply IH. exact H. Qed.
 
+Lemma existsb_str_In' s l : existsb (String.eqb s) l = true <-> In s l.
+Proof.
+  rewrite existsb_exists. split.
+  - intros [x [Hx E]]. apply String.eqb_eq in E. subst. exact Hx.
+  - intros H. exists s. split; [exact H | apply String.eqb_refl].
+Qed.
+Lemma nodupb_str_NoDup' l : NoDup l -> nodupb String.eqb l = true.
+Proof.
+  induction 1 as [|x t Hx _ IH]; [reflexivity|]. simpl. rewrite IH, andb_true_r. apply negb_true_iff.
+  destruct (existsb (String.eqb x) t) eqn:E; [|reflexivity]. apply existsb_str_In' in E. contradiction.
+Qed.
+
 (* grouping plain contiguous axes and then un-grouping restores the axes exactly, and the data *)
 Theorem unflatten_group_at names ins a r :
-  wf_shape a -> Forall (fun ax => amem ax = []) (axes a) ->
+  wf_shape a -> NoDup (dims a) -> Forall (fun ax => amem ax = []) (axes a) ->
   ins + List.length names <= List.length (axes a) -> names <> [] ->
-  group_at names ins a = Ok r -> unflatten r = a.
+  group_at names ins a = Ok r -> unflatten r = Ok a.
 Proof.
-  intros [Hsa Hda] Hplain Hlen Hne H.
+  intros [Hsa Hda] Hnd Hplain Hlen Hne H.
   destruct (group_at_spec _ _ _ _ H) as [g [Hg [Hax [Hat [Hd Hs]]]]]. cbv zeta in Hg.
   set (k := List.length names) in *.
   set (mems := firstn k (skipn ins (axes a))) in *.
@@ -161,9 +174,13 @@ Proof.
         rewrite skipn_skipn_. reflexivity.
       + apply Forall_forall. intros x Hx. rewrite Forall_forall in Hplain. apply Hplain. apply (in_skipn_ _ _ _ Hx).
     - apply Forall_forall. intros x Hx. rewrite Forall_forall in Hplain. apply Hplain. apply (in_firstn_ _ _ _ Hx). }
-  unfold unflatten. rewrite Hua. apply darr_eq; simpl.
+  unfold unflatten. rewrite Hua.
+  replace (nodupb String.eqb (map aname (axes a))) with true
+    by (symmetry; apply nodupb_str_NoDup'; exact Hnd).
+  cbn [negb]. f_equal. apply darr_eq; simpl.
   - reflexivity.
   - apply nd_eq; simpl; [exact Hsa | exact Hd |].
-    unfold group_at in H. cbv zeta in H. fold k mems in H. rewrite Hg in H. simpl in H. injection H as <-. reflexivity.
+    unfold group_at in H. cbv zeta in H. fold k mems in H. rewrite Hg in H. simpl in H.
+    destruct (mem_str _ _); [discriminate|]. injection H as <-. reflexivity.
   - exact Hat.
 Qed.
